@@ -55,6 +55,11 @@ type State = (BTreeSet<String>, BTreeMap<char, String>);
 
 fn apply_model(s: &mut State, h: &MHist, op: &MOp) {
     if let MOp::Edit { rm, add, info } = op {
+        // an edit that the API refuses to build (a string or info key the line format cannot
+        // carry) is never applied: an explicit rejection, not a state change
+        if build_edit(h, rm, add, info).is_err() {
+            return;
+        }
         for r in rm {
             s.0.remove(&h.pool[*r]);
         }
@@ -101,10 +106,14 @@ pub fn generate(seed: u64, class: &str) -> MHist {
         "a", "b", "thing one", "thing two", "0123456789abcdef", "x/y/z.sst", "+plus", "-minus",
         "--------x", " lead", "trail ", "\ttab", "a\u{1}b", "\u{7f}", "~", "I", "O", "D",
         "ffffffffffffffffffffffffffffffffffffffffffffffffffffffffffffffff",
+        "a\rb", "\u{0}", "x\u{0}y", "\r\r.", "deadbeef+x", "--------",
     ];
     let n = rng.range(3, 10) as usize;
     for _ in 0..n {
         pool.push(rng.pick(&plain).to_string());
+    }
+    if rng.chance(1, 15) {
+        pool.push("L".repeat(rng.range(1000, 3000) as usize));
     }
     if class == "odd-strings" {
         // strings the statement includes ("every non-newline byte") that the format mishandles
@@ -205,8 +214,12 @@ fn run_history(h: &MHist, root: &Path) -> RunOut {
             fsx::mark(format!("op {i} x begin"));
             match op {
                 MOp::Edit { rm, add, info } => {
-                    let e = build_edit(h, rm, add, info).map_err(|e| ("edit-rejected".to_string(), e))?;
-                    m.apply(e).map_err(|e| (format!("apply-error:{}", err_class(&format!("{e}"))), format!("op {i}: {e}")))?;
+                    match build_edit(h, rm, add, info) {
+                        Ok(e) => m.apply(e).map_err(|e| (format!("apply-error:{}", err_class(&format!("{e}"))), format!("op {i}: {e}")))?,
+                        Err(_) => {
+                            // explicit rejection when the edit is built: nothing is applied
+                        }
+                    }
                 }
                 MOp::Rollover => {
                     m.rollover().map_err(|e| (format!("rollover-error:{}", err_class(&format!("{e}"))), format!("op {i}: {e}")))?;
@@ -258,8 +271,9 @@ pub fn execute_plain(h: &MHist, mroot: &Path) -> Result<(), String> {
     for op in h.ops.iter() {
         match op {
             MOp::Edit { rm, add, info } => {
-                let e = build_edit(h, rm, add, info)?;
-                m.apply(e).map_err(|e| format!("{e}"))?;
+                if let Ok(e) = build_edit(h, rm, add, info) {
+                    m.apply(e).map_err(|e| format!("{e}"))?;
+                }
             }
             MOp::Rollover => m.rollover().map_err(|e| format!("{e}"))?,
             MOp::Reopen => {
